@@ -403,9 +403,9 @@ def check_history(case, rec):
 
 
 SUBS = [
-    Sub("split_pointwise_2d", check_split, gen=split_cases(2), quick=800, thorough=6000, shards=6),
-    Sub("split_pointwise_3d", check_split, gen=split_cases(3), quick=600, thorough=6000, shards=6),
-    Sub("history", check_history, gen=history_cases, quick=400, thorough=2500, shards=6),
+    Sub("split_pointwise_2d", check_split, gen=split_cases(2), quick=700, thorough=6000, shards=6),
+    Sub("split_pointwise_3d", check_split, gen=split_cases(3), quick=500, thorough=6000, shards=6),
+    Sub("history", check_history, gen=history_cases, quick=300, thorough=2500, shards=6),
 ]
 
 LEVEL_TEXT = ("Hypothesis-generated strain fields (generic and degenerate spectra, mixed inside elements) through all "
